@@ -1,0 +1,22 @@
+//go:build verif
+
+package tmengine
+
+import (
+	"context"
+
+	"github.com/gordian-engine/gordian/tm/tmengine/internal/tmstate"
+)
+
+// VerifInterpose, when set, is called from [New] under the verif build tag:
+// with stage 0 after the options have been applied
+// (the mirror and state machine configs hold the internal view channels),
+// and with stage 1 after the round entrance channel has been created.
+// A deterministic simulator uses it to place relays on the internal channels.
+var VerifInterpose func(ctx context.Context, e *Engine, smCfg *tmstate.StateMachineConfig, stage int)
+
+func verifInterpose(ctx context.Context, e *Engine, smCfg *tmstate.StateMachineConfig, stage int) {
+	if f := VerifInterpose; f != nil {
+		f(ctx, e, smCfg, stage)
+	}
+}
